@@ -49,13 +49,13 @@ func refBearing(t types.Type, depth int) bool {
 func ruleX2(p *Prog, r *Report) {
 	const R = "X2"
 	exempt := map[string]string{
-		"ArrayDataSlab.next":            "sibling link: by contract not a child reference (children are owned through the index slab)",
-		"MapDataSlab.next":              "sibling link: by contract not a child reference",
-		"ArrayDataSlab.header":          "the slab's own id",
-		"ArrayMetaDataSlab.header":      "the slab's own id",
-		"MapDataSlab.header":            "the slab's own id",
-		"MapMetaDataSlab.header":        "the slab's own id",
-		"StorableSlab.slabID":           "the slab's own id",
+		"ArrayDataSlab.next":       "sibling link: by contract not a child reference (children are owned through the index slab)",
+		"MapDataSlab.next":         "sibling link: by contract not a child reference",
+		"ArrayDataSlab.header":     "the slab's own id",
+		"ArrayMetaDataSlab.header": "the slab's own id",
+		"MapDataSlab.header":       "the slab's own id",
+		"MapMetaDataSlab.header":   "the slab's own id",
+		"StorableSlab.slabID":      "the slab's own id",
 	}
 	// union of everything reachable from the ChildStorables methods of Slab implementers
 	var roots []*ssa.Function
@@ -302,7 +302,10 @@ func ruleX3(p *Prog, r *Report) {
 				if !ok || (bo.Op != token.NEQ && bo.Op != token.EQL) {
 					return false
 				}
-				isParam := func(x ssa.Value) bool { prm, ok := canon(x).(*ssa.Parameter); return ok && typeName(prm.Type()) == "" && prm.Type().String() == "int" }
+				isParam := func(x ssa.Value) bool {
+					prm, ok := canon(x).(*ssa.Parameter)
+					return ok && typeName(prm.Type()) == "" && prm.Type().String() == "int"
+				}
 				return isParam(bo.X) || isParam(bo.Y)
 			}},
 			{"unreachable-slab", func(v ssa.Value) bool {
